@@ -65,8 +65,14 @@ def cases(rng, tier):
 
         def opts():
             if method == 'cycles':
-                return {'threshold_kwargs': {k: rng.choice([0.0, 0.2, 0.4, 0.6, 0.9]) for k in CYC} |
-                        {'min_n_cycles': rng.choice([1, 2, 3])}, 'center_extrema': center}
+                # every key is optional: an epoch that omits one must get the DEFAULT, not a neighbour's value
+                thr = {k: rng.choice([0.0, 0.2, 0.4, 0.6, 0.9]) for k in CYC if rng.random() < 0.6}
+                if rng.random() < 0.6:
+                    thr['min_n_cycles'] = rng.choice([1, 2, 3])
+                d = {'center_extrema': center}
+                if thr or rng.random() < 0.7:
+                    d['threshold_kwargs'] = thr
+                return d
             return {'burst_method': 'amp', 'center_extrema': center,
                     'threshold_kwargs': {'burst_fraction_threshold': rng.choice([0.1, 0.5, 1]), 'min_n_cycles': rng.choice([1, 2, 3])},
                     'burst_kwargs': {'amp_threshes': (0.5, 1.2)}}
@@ -77,7 +83,7 @@ def cases(rng, tier):
             lst = [first] + [dict(opts(), **({'burst_kwargs': first['burst_kwargs']} if method == 'amp' else {})) for _ in range(n_rows - 1)]
         out.append({'kind': 'axis_none/%s/%s' % (method, 'list' if per_epoch else 'dict'), 'sig': gen.hexlist(sig[:n_rows * row_len]),
                     'fs': s['fs'], 'f_range': list(s['f_range']), 'n_rows': n_rows, 'row_len': row_len, 'method': method,
-                    'center': center, 'first': first, 'list': lst})
+                    'center': center, 'first': first, 'list': lst, 'layout': rng.choice(['C', 'C', 'F', 'view'])})
     return out
 
 
@@ -132,6 +138,10 @@ def run_impl(c):
     from bycycle.group import compute_features_2d
     sig = gen.unhexlist(c['sig'])
     sigs = sig.reshape(c['n_rows'], c['row_len'])
+    if c.get('layout') == 'F':
+        sigs = np.asfortranarray(sigs)
+    elif c.get('layout') == 'view':
+        sigs = np.ascontiguousarray(sigs.T).T
     first = {k: (dict(v) if isinstance(v, dict) else v) for k, v in c['first'].items()}
     try:
         flat = compute_features(sig, c['fs'], tuple(c['f_range']), return_samples=True,
@@ -186,7 +196,7 @@ def _spec_epochs(rows, sig_len, L):
 
 def _relabel(c, o, k, rows_k, flat):
     opts = c['list'][k]
-    thr = opts['threshold_kwargs']
+    thr = opts.get('threshold_kwargs', {})
     if c['method'] == 'cycles':
         t = [thr.get(key, pipeline.CYC_DEFAULTS[key]) for key in CYC]
         q = []
@@ -271,7 +281,7 @@ def coq_case(c, o):
     if c['list']:
         items = []
         for opts in c['list']:
-            thr = opts['threshold_kwargs']
+            thr = opts.get('threshold_kwargs', {})
             if c['method'] == 'cycles':
                 items.append('(ICycles (%s) %d%%Z)' % (', '.join(coqio.fl(thr.get(k, pipeline.CYC_DEFAULTS[k])) for k in CYC),
                                                       thr.get('min_n_cycles', 3)))
